@@ -5,14 +5,14 @@ From PahoV Require Import Base.Prelude Codec.StrBytes Codec.Utf8 Codec.VBI Codec
 Ltac some_inv S := match type of S with Some ?a = Some ?b => let E := fresh in assert (E : b = a) by congruence; subst b; clear S end.
 
 (* ---- reading one value back ---- *)
-Lemma read_utf_ok u tail left : spec_str_ok u = true -> infixb feff u = false -> 2 + blen u <= left ->
+Lemma read_utf_ok u tail left : spec_str_ok u = true -> 2 + blen u <= left ->
   read_utf (spec_lp u ++ tail) left = Ok (u, blen (spec_lp u)).
 Proof.
-  intros H F L. unfold spec_str_ok in H. apply andb_true_iff in H as [H H3]. apply andb_true_iff in H as [H1 H2].
+  intros H L. unfold spec_str_ok in H. apply andb_true_iff in H as [H H3]. apply andb_true_iff in H as [H1 H2].
   apply negb_true_iff in H3. pose proof (blen_nonneg u) as Hn.
   destruct (read_lp u tail ltac:(lia)) as (R1 & R2 & _).
   unfold read_utf. destruct (left <? 2) eqn:E; [lia|]. rewrite R1. cbn [bind].
-  destruct (blen u >? left - 2) eqn:E2; [lia|]. rewrite R2, H1, H3, F. cbn [negb].
+  destruct (blen u >? left - 2) eqn:E2; [lia|]. rewrite R2, H1, H3. cbn [negb].
   rewrite blen_spec_lp. f_equal. f_equal. lia.
 Qed.
 
@@ -20,10 +20,10 @@ Lemma blen_be16 n : blen (be16 n) = 2. Proof. reflexivity. Qed.
 Lemma blen_be32 n : blen (be32 n) = 4. Proof. reflexivity. Qed.
 
 Lemma read_value_ok w v e tail left :
-  spec_fits w v = true -> no_feff v = true -> spec_value w v = Some e -> blen e <= left ->
+  spec_fits w v = true -> spec_value w v = Some e -> blen e <= left ->
   read_property (wtype_index w) (e ++ tail) left = Ok (v, blen e).
 Proof.
-  intros H F S L.
+  intros H S L.
   destruct w; destruct v as [n|[u|b]|[ua|ba] [ub|bb]]; cbn [spec_fits] in H; try discriminate;
     cbn [spec_value] in S; some_inv S; unfold read_property; cbn [wtype_index Z.eqb Pos.eqb].
   - reflexivity.
@@ -32,11 +32,9 @@ Proof.
   - apply zin_iff in H. rewrite vbi_decode_spec by (unfold vbi_max; lia). reflexivity.
   - destruct (read_lp b tail ltac:(lia)) as (R1 & R2 & _).
     unfold read_bytes. rewrite R1. cbn [bind fst snd]. rewrite R2, blen_spec_lp. f_equal. f_equal. lia.
-  - cbn [no_feff sval_no_feff] in F. apply negb_true_iff in F.
-    rewrite blen_spec_lp in L.
+  - rewrite blen_spec_lp in L.
     rewrite read_utf_ok by (assumption || lia). reflexivity.
-  - cbn [no_feff sval_no_feff] in F. apply andb_true_iff in F as [Fa Fb]. apply negb_true_iff in Fa, Fb.
-    apply andb_true_iff in H as [Ha Hb].
+  - apply andb_true_iff in H as [Ha Hb].
     rewrite blen_app, !blen_spec_lp in L. pose proof (blen_nonneg ua). pose proof (blen_nonneg ub).
     rewrite <- app_assoc.
     rewrite read_utf_ok by (assumption || lia). cbn [bind fst snd].
@@ -68,17 +66,17 @@ Fixpoint steps_ok (T : ptables) (s : pstate) (items : list (Z * pval)) : Prop :=
 Definition item_ok (T : ptables) (pt : Z) (x : Z * pval) : Prop :=
   let '(i, v) := x in
   exists n ty pts w, In (n, i) (t_names T) /\ assoc i (t_table T) = Some (ty, pts) /\ memz pt pts = true
-    /\ spec_type i = Some w /\ spec_fits w v = true /\ no_feff v = true /\ code_range_ok T i v = true.
+    /\ spec_type i = Some w /\ spec_fits w v = true /\ code_range_ok T i v = true.
 
 Lemma setattr_one T pt s n i v : tables_ok T = true -> item_ok T pt (i, v) -> get_name (t_names T) i = Some n ->
   step_ok T s (i, v) -> setattr T pt s n (One v) = Ok (ins T s (i, v)).
 Proof.
-  intros HT (n' & ty & pts & w & I & A & M & S & Fi & Fe & R) G St.
+  intros HT (n' & ty & pts & w & I & A & M & S & Fi & R) G St.
   destruct (tables_ok_row T n' i HT I) as [F1 F2 F3 F4 F5 _].
   assert (n' = n) by congruence. subst n'.
   unfold code_range_ok in R. rewrite G in R.
   destruct (range_check (t_groups T) (compress n) v) as [[]| |] eqn:RC; try discriminate.
-  unfold setattr. rewrite F3, F4. cbn [negb]. rewrite F1, A, M. cbn [negb]. rewrite RC. cbn [bind].
+  unfold setattr. rewrite F3, F4. cbn [negb]. rewrite F1, A, M. cbn [negb checked_items range_check_all]. rewrite RC. cbn [bind].
   unfold allows_multiple. rewrite F1. unfold ins, step_ok in *. cbn [fst] in St.
   destruct (memz i (t_multi T)); [|reflexivity].
   destruct (assoc i s) as [[u|old]|]; [exfalso; apply (St u); reflexivity | reflexivity | reflexivity].
@@ -91,7 +89,7 @@ Lemma unpack_step T pt f i v e tail k s w : tables_ok T = true -> item_ok T pt (
   = unpack_loop T pt f tail k (ins T s (i, v)).
 Proof.
   intros HT Hit S E St Hk.
-  pose proof Hit as (n & ty & pts & w' & I & A & M & S' & Fi & Fe & R).
+  pose proof Hit as (n & ty & pts & w' & I & A & M & S' & Fi & R).
   assert (w' = w) by congruence. subst w'.
   destruct (tables_ok_row T n i HT I) as [F1 F2 F3 F4 F5 (ty' & pts' & w'' & A' & S'' & Ety)].
   assert (w'' = w) by congruence. subst w''. assert (ty' = ty) by congruence. subst ty'.
@@ -248,10 +246,10 @@ Proof.
 Qed.
 
 Lemma items_ok T pt st : tables_ok T = true -> wf_state T pt st = true ->
-  no_feff_state st = true -> code_range_state T st = true ->
+  code_range_state T st = true ->
   forall ns, incl ns (t_names T) -> Forall (item_ok T pt) (flat (norm_names ns st)).
 Proof.
-  intros HT HS HF HR. induction ns as [|[n i] r IH]; intros Hincl; [constructor|].
+  intros HT HS HR. induction ns as [|[n i] r IH]; intros Hincl; [constructor|].
   assert (In_ : In (n, i) (t_names T)) by (apply Hincl; left; reflexivity).
   cbn [norm_names]. destruct (assoc i st) as [si|] eqn:A; [|apply IH; exact (fun x Hx => Hincl x (or_intror Hx))].
   unfold flat. cbn [flat_map fst snd]. apply Forall_app. split; [|apply IH; exact (fun x Hx => Hincl x (or_intror Hx))].
@@ -260,16 +258,15 @@ Proof.
   apply Forall_forall. intros [j v] Hx. destruct (entries_values i si _ Hx) as [Ej Hv]. cbn [fst snd] in Ej, Hv. subst j.
   exists n, ty, pts, w. repeat split; try assumption.
   - eapply stored_ok_fits; eassumption.
-  - exact (state_all_assoc _ st i si v HF A Hv).
   - exact (state_all_assoc _ st i si v HR A Hv).
 Qed.
 
 (* ---- the round trip ---- *)
 Lemma unpack_pack T pt st rest : tables_ok T = true -> wf_state T pt st = true -> body_small T st = true ->
-  no_feff_state st = true -> code_range_state T st = true ->
+  code_range_state T st = true ->
   exists b, pack T st = Ok b /\ unpack T pt (b ++ rest) = Ok (norm T st, blen b).
 Proof.
-  intros HT HS HB HF HR.
+  intros HT HS HB HR.
   destruct (pack_names_spec T pt st HT HS (t_names T) (incl_refl _)) as [body [B1 B2]].
   pose proof HB as HB'. unfold body_small, canon, norm in HB'. fold (flat (norm_names (t_names T) st)) in HB'.
   rewrite B2 in HB'. pose proof (blen_nonneg body) as Hn.
@@ -278,11 +275,11 @@ Proof.
   - unfold unpack. rewrite <- app_assoc. rewrite vbi_decode_spec by lia. cbn [bind fst snd].
     rewrite skipn_blen_app.
     assert (Hnd : NoDup (map snd (t_names T))).
-    { unfold tables_ok in HT. apply andb_true_iff in HT as [HT _]. apply andb_true_iff in HT as [_ HT].
-      apply nodupz_NoDup. assumption. }
+    { pose proof HT as HT'. unfold tables_ok in HT'. apply andb_true_iff in HT' as [HT' _].
+      apply andb_true_iff in HT' as [_ HT']. apply nodupz_NoDup. assumption. }
     destruct (fold_norm T pt st HT HS (t_names T) (incl_refl _) Hnd [] (fun _ _ => eq_refl)) as [E1 E2].
     rewrite (unpack_flat T pt HT (flat (norm_names (t_names T) st)) [] _ rest body B2
-               (items_ok T pt st HT HS HF HR (t_names T) (incl_refl _)) E2).
+               (items_ok T pt st HT HS HR (t_names T) (incl_refl _)) E2).
     + rewrite E1. cbn [app bind]. unfold norm. f_equal. f_equal. rewrite blen_app. lia.
     + rewrite !app_length. lia.
 Qed.
